@@ -43,6 +43,7 @@ class Norm:
         self.memo = {}
         self.unknown = set()
         self.input_widths = dict(input_widths or {})
+        self.value_widths = {}      # normalised opaque term -> static byte width learnt from the type of a local that held it
 
     def n(self, t):
         if not isinstance(t, tuple) or not t:
@@ -131,7 +132,7 @@ class Norm:
             return 16
         if k == "AEAD_ENC":
             return self.width(t[4])
-        return None
+        return self.value_widths.get(t)
 
     def sl(self, x, lo, hi):
         """slice; bounds (k,e) = k + e*len(x). Resolved against known widths / concatenation structure."""
